@@ -42,7 +42,7 @@ for i, (fl, e) in enumerate([("NM", NM), ("TM", TM), ("MO", MO), ("MN", MN), ("C
 # nothrow moves + throwing user swap: plain allocator, propagating-on-swap allocator, std::allocator
 add("core_SW", SW, sim_alloc(SW, cfg()), NSETS[2], packs=("core",))
 add("alloc_SW_001", SW, sim_alloc(SW, cfg(0, 0, 1)), NSETS[0], packs=("alloc",))
-add("alloc_SW_ae", SW, sim_alloc(SW, cfg(0, 0, 0, ae=1)), NSETS[5], packs=("alloc",))
+add("alloc_SW_ae", SW, sim_alloc(SW, cfg(0, 0, 0, ae=1)), NSETS[5], packs=("alloc", "c17"))
 # std::allocator (tracked through a specialisation for the tagged element types)
 add("std_NM", "sim::elem_nm<1>", "std::allocator<sim::elem_nm<1> >", NSETS[1], packs=("core", "alloc", "c17"))
 add("std_TM", "sim::elem_tm<1>", "std::allocator<sim::elem_tm<1> >", NSETS[2], packs=("core", "alloc"))
